@@ -263,8 +263,8 @@ class Particle(Structure):
             memmove(byref(self), byref(particle), sizeof(self))
             return
         for _v in (m,x,y,z,vx,vy,vz,a,P,e,inc,Omega,omega,pomega,f,M,E,l,theta,T,r,h,k,ix,iy,pal_h,pal_k,pal_ix,pal_iy):
-            if _v is not None and _v != _v:     # NaN (C uses NaN to mark arguments that were not passed)
-                raise ValueError("NaN passed as an argument.")
+            if _v is not None and not math.isfinite(_v):     # NaN or +-inf (C uses NaN to mark arguments that were not passed)
+                raise ValueError("NaN or infinite value passed as an argument.")
         cart = [x,y,z,vx,vy,vz]
         orbi = [primary,a,P,e,inc,Omega,omega,pomega,f,M,E,l,theta,T]
         if pal_h is not None:
